@@ -193,7 +193,10 @@ pub fn conc_campaigns(property: &str) -> Vec<ConcCampaign> {
             rule: "keys are never deleted, never given a TTL and the cache is far from full, so once a key's first write is acknowledged it stays readable; 3-8 threads then race puts (all four variants), in-place upserts, reads and held get_ref guards on those keys with 2 store shards; every such put must be refused with KeyAlreadyExists and no read may ever return its value; non-trivial = >= 3 puts hit an already settled key from >= 3 threads" },
             ConcCampaign { name: "conc-general", profile: General, cases_quick: 500, cases_thorough: 6000, nt: |s| s.unawaited_same_key && s.overlapping_read_write,
             rule: "generated concurrent programs (2-6 threads, 1-6 overlapping keys, all write variants incl. deletes racing puts, clock thread, delay injection at any schedule point); all history checkers and the quiescence invariants (bijection, no entry left marked deleted, totals); non-trivial = overlapping writes of one key and a read overlapping a write" }],
-        "C03" => vec![ConcCampaign { name: "conc-tight-fit", profile: TightFit, cases_quick: 600, cases_thorough: 8000, nt: |s| s.owner_reincarnations >= 2 && s.swept_during_run && s.threads >= 2,
+        "C03" => vec![
+            ConcCampaign { name: "conc-ttl-owner", profile: TtlOwner, cases_quick: 400, cases_thorough: 4000, nt: |s| s.swept_during_run && s.ttl_writes >= 2 && s.threads >= 3,
+            rule: "the sweep-race programs (threads cycling TTL writes on three shared keys while a clock thread keeps expiring them and the sweeper is delayed inside its pass, expiry shard locked) plus an owner thread, the only writer of four private keys, which gives them a TTL and takes it away again, every write awaited; at quiescence (after one more sweep of every shard) every key whose only writer left it in the cache without a TTL must be held, without an expiry; non-trivial = the sweeper collected keys during the run and >= 2 TTL writes were accepted" },
+            ConcCampaign { name: "conc-tight-fit", profile: TightFit, cases_quick: 600, cases_thorough: 8000, nt: |s| s.owner_reincarnations >= 2 && s.swept_during_run && s.threads >= 2,
             rule: "the cache weight equals the combined (fixed) put weights of the whole key universe, so everything always fits; thread 0 works sequentially (each write awaited) on two keys nobody else touches, without TTL, while 1-5 other threads churn the other keys with TTL puts, upserts, deletes and a clock thread drives sweeps, with delays in the weight-accounting critical sections; nothing may be refused for space and the owner must always read its latest acknowledged value; non-trivial = the owner's keys went through >= 2 accepted puts AND the sweeper collected keys during the run" }],
         "C09" => vec![ConcCampaign { name: "conc-expiry", profile: General, cases_quick: 500, cases_thorough: 6000, nt: |s| s.ttl_writes >= 1 && s.sweeps_during_run && s.read_after_completed_overwrite,
             rule: "generated concurrent programs with TTL writes and a clock thread; history checker: a returned value whose write carried a TTL must not be served once the clock is certainly past the latest possible deadline of that write (clock values bracketed by stamps); non-trivial = an accepted TTL write, a clock thread, and a value-returning read after a completed write" }],
